@@ -22,6 +22,7 @@ class C09(AofCheck):
         return {
             "rewrite": [gen_aof.workload(rng, "w%d" % i, rng.randrange(5, 12), torn=1, rewrite=0.3) for i in range(50 if q else 1000)],
             "fresh": [self.fresh(i) for i in range(3)],
+            "rewrite-twice": [self.twice(i) for i in range(24 if q else 240)],
             "chain": [gen_aof.chain(rng, "c%d" % i, 3, rng.randrange(2, 7), rewrite=0.3) for i in range(40 if q else 1000)],
             "concurrent": sched + [gen_aof.concurrent(rng, "r%d" % i, rng.randrange(0, 5)) for i in range(20 if q else 600)],
         }
@@ -33,6 +34,29 @@ class C09(AofCheck):
             s.raw("RW 1", ["rewrite"])
         s.raw("D 0 12", ["select", 0, 12])
         gen_aof.add_cmd(s, 0, ["SET", "a", "x"]); gen_aof.add_cmd(s, 1, ["RPUSH", "l", "p"])
+        s.raw("G", ["digest"]); s.raw("K", ["kill"]); s.raw("O", ["open"]); s.raw("G", ["digest"])
+        return s
+
+    EMPTIERS = [[["DEL", "a"], ["DEL", "l"], ["DEL", "h"]], [["FLUSHALL"]], [["FLUSHDB"]], [["DEL", "a"]],
+                [["LPOP", "l"], ["DEL", "a"], ["HDEL", "h", "f"]], []]
+    def twice(self, i):
+        """a completed rewrite, then changes that shrink the dataset (possibly to nothing, in one or in every database),
+        a second rewrite, optionally more writes, restart: the second preamble must replace the first"""
+        rng = self.rng
+        s = Script("t%d" % i, {"aofsync": gen_aof.POLICIES[i % 3]})
+        s.raw("O", ["open"])
+        dbs = [0] if i % 2 == 0 else [0, rng.choice([1, 12])]
+        for d in dbs:
+            s.raw("D 0 %d" % d, ["select", 0, d])
+            gen_aof.add_cmd(s, 0, ["SET", "a", "x"]); gen_aof.add_cmd(s, 0, ["RPUSH", "l", "p"]); gen_aof.add_cmd(s, 0, ["HSET", "h", "f", "1"])
+        s.raw("RW 0", ["rewrite"])
+        for d in dbs:
+            s.raw("D 0 %d" % d, ["select", 0, d])
+            for argv in self.EMPTIERS[(i // 2 + d) % len(self.EMPTIERS)]:
+                gen_aof.add_cmd(s, 0, argv)
+        s.raw("G", ["digest"]); s.raw("RW 0", ["rewrite"])
+        if i % 3 == 0:
+            gen_aof.add_cmd(s, 0, ["SET", "late", "1"])
         s.raw("G", ["digest"]); s.raw("K", ["kill"]); s.raw("O", ["open"]); s.raw("G", ["digest"])
         return s
 
